@@ -1,16 +1,16 @@
-\* leg A thorough (C08): 3 calls, retries
+\* leg A (C01 reuse part): surplus message on an idle connection, 2 calls
 SPECIFICATION Spec
 CONSTANTS
-  NCalls = 3
-  MaxDials = 3
+  NCalls = 2
+  MaxDials = 2
   Policy = "code"
   MaxRetry = 2
   AttemptBound = 4
   RandomSelect = FALSE
   LockInOnce = FALSE
   Dev = {}
-  MaxFaults = 2
-  Kinds = {"eof"}
+  MaxFaults = 1
+  Kinds = {"eof", "surplus"}
   OrderedStart = TRUE
   CancelCalls = {}
   EnvTClose = FALSE
